@@ -50,6 +50,10 @@ var c08NameLexemes = []string{"[", "]", "|", "...", "-d", "--dry-run", "--dry_ru
 // blanks and their look-alikes: only the space and the tab separate tokens
 var c08Blanks = []string{" ", "\t", "X", "-a", "\n", "\r", "\v", "\f", "\u00a0", "\u2003", "\u0085"}
 
+// annotation fragments after a non-empty prefix: error positions are absolute, not relative to the annotation
+var c08AnnotPrefixes = []string{"X -a", "X [--aa", "[X] -z", "X  --zz"}
+var c08AnnotBytes = []string{"=", "<", ">", "a", " "}
+
 var c08Decls = []*declSet{
 	mkDeclSet("a,aa,b;X", []string{"a aa", "b"}, []string{"X"}),
 	mkDeclSet("z,zz;Q", []string{"z zz"}, []string{"Q"}),
@@ -105,6 +109,12 @@ func runSyntax(c *Ctx) {
 		strSeqs(c08Blanks, n, func(p []string) { do(strings.Join(p, "")) })
 	}
 	c.Note("space (vi)", fmt.Sprintf("all strings of <= 4 symbols over %q", c08Blanks))
+	for _, pre := range c08AnnotPrefixes {
+		for n := 1; n <= 4; n++ {
+			strSeqs(c08AnnotBytes, n, func(p []string) { do(pre + strings.Join(p, "")) })
+		}
+	}
+	c.Note("space (viii)", fmt.Sprintf("prefixes %q followed by every string of <= 4 symbols over %q (annotations away from offset 0)", c08AnnotPrefixes, c08AnnotBytes))
 	for n := 1; n <= 3; n++ {
 		strSeqs(c08NameLexemes, n, func(p []string) {
 			for _, sep := range []string{"", " "} {
